@@ -145,7 +145,7 @@ SUBS = [
         kind="hyp",
         strategy=cases,
         body=body,
-        budget={"quick": 6000, "thorough": 150000},
+        budget={"quick": 3200, "thorough": 150000},
         desc="Hypothesis-drawn scaffolds x all / 200 drawn intervals vs brute-force scan",
     ),
     Sub(
